@@ -15,6 +15,10 @@ def run(tier, wd):
     alphabet = ["c1", "c2", "d1", "a1", "b1", "e2", "get", "one", "deep", "x", "-f", "-n=7", "-n=zz", "-g", "zz"] if q else \
                ["c1", "k1", "c2", "d1", "a1", "b1", "bb", "e1", "e2", "x", "-f", "-n=7", "-n=zz", "-n", "-g", "--", "zz", "--force=maybe"]
     trs, rows = tc.run_tree(rep, wd, binpath, alphabet, 3 if q else 4, ["continue", "exit", "panic"], "c07")
+    # commands that set their own error policy in their initialiser: the policy of the command that rejects decides
+    tc.add_tree(rep, wd, binpath, alphabet, ["continue", "exit", "panic"], "c07-policy", T.policy_tree(), trs, rows)
+    # a multi-valued Int option: every written value must be convertible (numerals padded with blanks are not)
+    tc.add_tree(rep, wd, binpath, alphabet, ["continue", "exit", "panic"], "c07-ints", T.ints_tree(), trs, rows)
     kinds, by_level = {}, {}
     nontriv = 0
     for c, r in rows:
